@@ -355,6 +355,21 @@ def gen_failing(ctx, fmts, rng):
         sc.close("h0")
         sc.end()
         out.append(sc)
+    # ALAC writer whose sf_close cannot write (file size limit reached after the last write call): the spool FILE, its descriptor,
+    # the spool file on disk and the packet table are released by alac_close whatever the header re-write answers
+    # (and plain closes after 1, 2 and 3 packets went through the spool file)
+    for (nfr, ch, limit) in ((0, 1, True), (3, 2, True), (5000, 2, True), (100, 1, False), (4097, 1, False), (8193, 1, False)):
+        sc = Sc("alac-close-%s-%d" % ("efbig" if limit else "plain", nfr), "failing-close" if limit else "fixed")
+        sc.open("h0", "s0", "w", 0x180070, ch, "path")
+        if nfr:
+            sc.op("w h0 s16 f %d %s" % (nfr, "".join("%04x" % ((k * 37) & 0xFFFF) for k in range(nfr * ch))), "write 1")
+        if limit:
+            sc.op("fsize 0", None)
+        sc.close("h0")
+        if limit:
+            sc.op("fsize off", None)
+        sc.end()
+        out.append(sc)
     return out
 
 
